@@ -113,10 +113,11 @@ fn one(ctx: &Ctx, out: &mut Out, leg: &str, prog: &[u8], wit: &[u8], origin: &st
 
 fn leg_bytes(ctx: &Ctx, out: &mut Out) {
     let leg = "bytes";
-    let maxlen = ctx.tier.pick(2usize, 3);
+    // thorough: all 4-byte strings as well (4.3e9 strings x 4 splits)
+    let maxlen = ctx.tier.pick(2usize, 4);
     for len in 1..=maxlen {
         let total: u64 = 1 << (8 * len);
-        let chunk = 256u64;
+        let chunk: u64 = if len >= 4 { 65_536 } else { 256 };
         let mut base = 0;
         while base < total {
             if ctx.mine() {
